@@ -351,7 +351,8 @@ class VgiAccessLogFormatter(VgiJsonFormatter):
        and set ``truncated: true`` plus ``original_request_bytes``.
     2. Drop ``error_message`` and ``claims``.
     3. Fall back to a minimal sentinel record carrying only the
-       always-required envelope fields plus ``truncated: "record_too_large"``.
+       always-required envelope fields (plus ``stream_id`` on stream
+       records, which the schema requires) and ``truncated: "record_too_large"``.
 
     The default cap (1 MiB) is large enough for almost any realistic record
     while still keeping a hard upper bound on per-line size for shippers.
@@ -426,4 +427,9 @@ class VgiAccessLogFormatter(VgiJsonFormatter):
         if sentinel["status"] == "error":
             err = obj.get("error_message")
             sentinel["error_message"] = err if isinstance(err, str) and err else "record_too_large"
+        # The schema requires stream_id on every stream record, the sentinel
+        # included; dropping it also cut the record out of its stream's chain.
+        stream_id = obj.get("stream_id")
+        if stream_id is not None:
+            sentinel["stream_id"] = stream_id
         return json.dumps(sentinel, default=str)
